@@ -20,7 +20,7 @@ From Coq Require Import ZArith NArith List Bool Lia.
 From Tinode Require Import Base.Util Pure.Acs Sys.Topic Sys.TopicTac Sys.TopicFrame Sys.TopicNum Sys.TopicNumThm Sys.TopicInst
   Sys.TopicCohC08 Sys.TopicCohC08Proofs Sys.TopicCohC08Step Sys.TopicCohC08Run Sys.TopicCohC08Query Sys.TopicCohC08Wit
   Sys.TopicCohC08Reject Sys.TopicCohC08Ack Sys.TopicCohC08Wit2 Sys.TopicCohC08Keys Sys.TopicCohC08Bisim
-  Sys.PermBranchC08c Sys.PermBranchC08cProofs Sys.PermBranchC08cWit.
+  Sys.PermBranchC08c Sys.PermBranchC08cProofs Sys.PermAckFullC08c Sys.PermBranchC08cWit.
 Import ListNotations.
 Open Scope Z_scope.
 
@@ -109,15 +109,16 @@ Theorem c08_reject_no_change_partial : forall x o,
 Proof. exact (step_reject dr nr sm). Qed.
 (* ACKNOWLEDGED ACCESS MODE = STORED ACCESS MODE ("every acknowledged change to permissions is in the store
    by the time it is acknowledged"), every branch of thisUserSub / anotherUserSub / replyOfflineTopicSetSub,
-   every fault plan except a fault inside an ownership acceptance (finding #9): whenever a {sub} or
-   {set sub} request - own or about another user, attached or not, topic loaded or not - is answered
-   {ctrl 200 params.acs = want/given}, the reply goes to the requester and the live stored subscription row
-   of the user it is about (the named user, else the requester) holds exactly that want and that given. *)
+   EVERY fault plan: whenever a {sub} or {set sub} request - own or about another user, attached or not, topic
+   loaded or not - is answered {ctrl 200 params.acs = want/given}, the reply goes to the requester and the live
+   stored subscription row of the user it is about (the named user, else the requester) holds exactly that want
+   and that given.  (An acknowledged request met no store error - step_ack_nofault_c08c - so the fault plan
+   does not matter; a fault inside an ownership acceptance, finding #9, produces no reply at all.) *)
 Theorem c08_acs_ack_is_stored : forall f x o sid named w g,
-  inv x -> known sm o -> fault_ok sm f x o -> is_perm_req_c08c o = true ->
+  inv x -> known sm o -> is_perm_req_c08c o = true ->
   In (sid, CtrlAcs 200 named w g) (snd (step dr nr sm f x o)) ->
   sid = op_sid o /\ stored_acs_c08c (st (fst (step dr nr sm f x o))) (acs_subject_c08c sm o named) w g.
-Proof. exact (step_acs_ack_stored_c08c dr nr sm). Qed.
+Proof. exact (step_acs_ack_stored_full_c08c dr nr sm). Qed.
 
 (* SELF-RAISE: an attached approver (A in grant and in the requested mode) or holder of an O grant who asks,
    for himself, beyond his grant - the branches PB_t_raise_admin / PB_t_raise_owner / PB_t_accept_raise of the
